@@ -70,11 +70,11 @@ class Run:
                 pass
 
     # ---------------------------------------------------------------- build
-    def build(self, race=False):
+    def build(self, race=False, tags="verif", pkg=".", out_name="vh"):
         """Rebuild the harness against /repo's current working tree with the verif tag."""
-        out = os.path.join(self.dir, "vh")
+        out = os.path.join(self.dir, out_name)
         # keep the harness module's dependency list in step with /repo
-        cmd = ["go", "build", "-tags", "verif"] + (["-race"] if race else [])
+        cmd = ["go", "build", "-tags", tags] + (["-race"] if race else [])
         if os.path.abspath(REPO) != "/repo":
             # seeded-change testing: build against a scratch worktree instead of /repo (VERIF_REPO)
             mod = open(os.path.join(HARNESS, "go.mod")).read().replace("=> /repo", "=> " + os.path.abspath(REPO))
@@ -82,11 +82,12 @@ class Run:
                 f.write(mod)
             shutil.copy(os.path.join(HARNESS, "go.sum"), os.path.join(self.dir, "go.sum"))
             cmd += ["-modfile", os.path.join(self.dir, "go.mod")]
-        cmd += ["-o", out, "."]
+        cmd += ["-o", out, pkg]
         p = subprocess.run(cmd, cwd=HARNESS, env=GOENV, capture_output=True, text=True)
         if p.returncode != 0:
             raise Infra("harness does not build against /repo:\n" + p.stdout + p.stderr)
-        self.vh = out
+        if out_name == "vh":
+            self.vh = out
         return out
 
     # ------------------------------------------------------------------ TLC
